@@ -322,6 +322,10 @@ pub fn run(ctx: &Ctx) {
         ("a +", false), ("+ a", false), ("+a", false), ("a + + b", false), ("a b", false), ("a, b", false), ("a;", false), (":a", true), (": a", true), ("::a", false),
         (":1", false), ("a.b.c", true), ("a..b", false), ("a.", false), (".a", false), ("a.:b", false), ("some(a)", true), ("some a", false), ("int", false),
         ("int()", false), ("int(a)", true), ("int(a, b)", false), ("date_time(a)", true), ("datetime a", false), ("none", true), ("none()", false), ("none(a)", true),
+        ("{a}", false), ("{a, b}", false), ("{a: }", false), ("{: i1}", false), ("a.year", false), ("a.int", false), ("a.if", false), ("a.none", false),
+        ("a.true", false), (":s.day", false), ("a.contains", false), ("{year: i1}", false), ("{if: i1}", false), ("a.key", true), ("a.val", true), ("{key: i1}", true),
+        ("-0x10", true), ("a-0x10", true), ("a -0x10", true), ("a--0x10", true), ("a - -0b1", true), ("0x-10", false), ("i-0x10", false),
+        ("\"a\\\nb\"", false), ("\"a\nb\"", true), ("f1e", true), ("f1e+", false),
         ("null", true), ("nil", true), ("True", true), ("TRUE", true), ("@a", false), ("$a", false), ("a$", false), ("a?", false), ("a!", false), ("a~b", false),
     ];
     ctx.list(
